@@ -88,6 +88,12 @@ def check_h1(rec: core.Recorder, h, data_flat: np.ndarray, weights_flat: Optiona
     exp_f = model.frac_array(m.freq)
     exp_e = model.frac_array(m.err2)
     res_dtype = np.dtype(h.dtype)
+    if res_dtype.kind in "iu" and dtype is None:
+        top = float(np.iinfo(res_dtype).max)
+        if float(np.max(exp_f, initial=0)) > top or float(np.max(exp_e, initial=0)) > top:
+            fail("the integer type chosen for the result cannot hold the sums of the weights / of their squares (they wrap around)", ["dtype", "frequencies"],
+                 dtype=str(res_dtype), max_content=float(np.max(exp_f, initial=0)), max_errors2=float(np.max(exp_e, initial=0)))
+            return False
     if exact:
         # the library sums exactly and rounds once on assignment -> same single cast in the model
         with np.errstate(over="ignore", invalid="ignore"):
